@@ -39,3 +39,8 @@ Definition init_check (c : float * float * float * nat * list float) : nat :=
 (* the bulk density of every 10-cm layer after hermes.Input: (horizons of the generated soil file, observed g.BD[0..N-1]) *)
 Definition bd_check (c : list (Z * Z * option float) * list float) : nat :=
   let '(hs, obs) := c in if floats_same (layer_bd 0%Z hs) obs then 0%nat else 1%nat.
+
+(* TBASE of a traced run: (configured AnnualAverageTemperature, the distinct values g.TBASE had on the traced days) *)
+Definition tbase_check (c : float * list float) : nat :=
+  let '(conf, seen) := c in
+  if forallb (fun v => float_same (tbase_of_config conf) v) seen && negb (Nat.eqb (length seen) 0) then 0%nat else 1%nat.
